@@ -7,7 +7,9 @@ THEOREMS = ["c06_gate_sound", "c06_identity_real", "c06_never_denied", "c06_deny
             "c06_basic_only_without_cookie", "c06_webui_without_password", "c06_csrf",
             "c06_routes", "c06_public_no_effect", "c06_csrf_partial", "c06_csrf_nonget",
             "c06_login_mints_password_only", "c06_login_ignores_attached", "c06_login_session_needs_second_factor", "c06_login_row_is_issuer", "c06_login_carry_refuted", "c06_obs_login_is_spec",
-            "c06_get_state_changers", "c06_get_effects_refuted", "c06_old_manage_refuted", "c06_old_register_finish_refuted", "c06_old_auth_finish_refuted", "c06_old_tls_refuted"]
+            "c06_get_state_changers", "c06_get_effects_refuted", "c06_old_manage_refuted", "c06_old_register_finish_refuted", "c06_old_auth_finish_refuted", "c06_old_tls_refuted",
+            "c06_verdict_history_independent", "c06_history_pointwise", "c06_gate_sound_after_history", "c06_verdict_memo_refuted"]
+THEOREMS += ["c06_ip_extension_never_plain", "c06_ip_extension_cert_alone", "c06_extension_only_under_role_ca", "c06_obs_role_is_spec", "c06_role_issuer_by_key_type_refuted"]   # fifth wave, C06-I
 
 def _field(line, name, default="?"):
     m = re.search(r"\b%s=(\S+)" % name, line or "")
@@ -20,6 +22,12 @@ def _gate_key(line):
 def _login_key(line):
     return "C06:model-oracle:login-minted-level:%s" % _field(line, "class")
 
+def _hist_key(line):
+    m = re.search(r"\t(\S+?):(look-alike-first|genuine-first|long-lived-daemon) ", line or "")
+    return "C06:model-oracle:history:%s" % (m.group(1) if m else "?")
+def _role_key(line):
+    return "C06:model-oracle:role-cert:%s" % _field(line, "class")
+
 def _route_key(line):
     return "C06:model-oracle:route:%s:%s" % (_field(line, "handler"), _field(line, "class"))
 
@@ -29,6 +37,10 @@ GATE_WHAT = ("checkAuth admitted an identity / level on this case although the c
 ROUTE_WHAT = ("a protected effect was observed, or an identity was logged, on this case although the request is not accepted by the "
               "route's declared gate (acceptsb / identity_okb evaluated on the observation, proved equivalent to the conclusion of c06_routes)")
 
+ROLE_WHAT = ("a certificate that was found to carry the address delegation extension (minted by a role endpoint of this very daemon, presented with the chains crypto/x509 verifies "
+             "against the service port's client-CA pool) was let in at another level than the IP-certificate level, from a peer outside its netblock, or by a route whose mask takes no IP "
+             "certificates: the conclusion of c06_ip_extension_cert_alone (role_conclusion, proved equivalent) evaluates to false on the observation")
+
 LOGIN_WHAT = ("the login route set a session cookie on this case although the conclusion of c06_login_mints_password_only (level = the password level exactly, "
               "subject = the normalised user of the login credential, that credential a verified password - whatever auth_cookie / client certificate is attached) "
               "evaluates to false on the observed subject and level (login_conclusion, proved equivalent to the statement)")
@@ -36,13 +48,15 @@ LOGIN_WHAT = ("the login route set a session cookie on this case although the co
 def run(ctx):
     return standard(ctx,
         props=[("Props.C06", THEOREMS)],
-        harness=("TestVerif_C06", ["kmd/common.go", "kmd/creds.go", "kmd/consts.go", "kmd/vdevice.go", "kmd/c06.go"]),
-        obl=("Obl_C06.v", ["c06_routes_classified", "c06_no_stale_rows", "c06_keys_unique"]),
+        harness=("TestVerif_C06", ["kmd/common.go", "kmd/creds.go", "kmd/consts.go", "kmd/vdevice.go", "kmd/c06.go", "kmd/c06_hist.go", "kmd/c06_role.go"]),
+        obl=("Obl_C06.v", ["c06_routes_classified", "c06_no_stale_rows", "c06_keys_unique", "c06_x509_issuing_sites"]),
         cases=("CasesC06.v", [("c06_gate_mismatches", "checkAuth (user, level, status, issue instant) = model check_auth on every shape (single credentials and certificate x cookie x basic-auth combinations) x mask x method x origin x deny list", "CasesC06_gate.idx"),
                               ("c06_route_mismatches", "per route of the regenerated mux: logged identity = model, observed effects within the model's"),
                               ("c06_window_gate_mismatches", "checkAuth on session cookies minted around the request (exp / nbf a few seconds to an hour before and after the clock, iat in the future, with and without a basic-auth header) = model check_auth at a clock reading inside the interval measured around the call (nanoseconds; no other tolerance)", "CasesC06_wgate.idx"),
                               ("c06_window_route_mismatches", "the same cookies through representative routes (certgen, profile, TOTP generation, token manager, OpenID authorization, U2F sign request): logged identity and effects = model run at a clock reading inside the measured interval", "CasesC06_wroute.idx"),
                               ("c06_login_mismatches", "the login route as issuer of sessions: login credential (form / Authorization header / both, right and wrong password, unnormalised name) x attached auth_cookie state (none; the same and another user's session of every level; expired, foreign, junk; two cookies) x client certificate x method x Accept: refusal status resp. subject and auth_type of the Set-Cookie decoded under the server's key = model login_handler", "CasesC06_login.idx"),
+                              ("c06_history_mismatches", "ordered pairs of requests on one daemon (a genuine credential and a look-alike of it: the same subject and serial number from each other CA, the same key id, the same serial under another subject, the leaf with a one-element chain; the session cookie with one claim altered and re-signed by a foreign key or under the old signature; the IP-restricted certificate from outside on full and resumed sessions; right then wrong password; both orders): every direct checkAuth call with the history of the daemon so far = model verdict_after history request (which has no memory)", "CasesC06_hist.idx"),
+                              ("c06_role_mismatches", "role certificates asked from /v1/getRoleRequestingCert and /v1/refreshRoleRequestingCert for every key type on daemons with and without an Ed25519 CA: issuer, address extension and the chains crypto/x509 verifies against the client-CA pool = the issuer model (issue, verified_chains); checkAuth and the routes on these certificates presented from inside / outside their block = check_auth / run on the connection state of the MODEL's issuer", "CasesC06_role.idx"),
                               ("c06_webui_mismatches", "getRequiredWebUIAuthLevel() = model webui_level on every subset of the backend names and on the loaded configurations", "CasesC06_webui.idx")],
                "CasesC06_route.idx"),
         trusted=["signature verification (go-jose, crypto/x509 chain building) is symbolic in the model: the harness knows by construction which token / chain is genuine and the real verifier has to find out from the bytes",
@@ -57,7 +71,9 @@ def run(ctx):
                        ("c06_route_violating", _route_key, ROUTE_WHAT, "CasesC06_route.idx"),
                        ("c06_window_gate_violating", _gate_key, GATE_WHAT, "CasesC06_wgate.idx"),
                        ("c06_window_route_violating", _route_key, ROUTE_WHAT, "CasesC06_wroute.idx"),
-                       ("c06_login_violating", _login_key, LOGIN_WHAT, "CasesC06_login.idx")],
+                       ("c06_login_violating", _login_key, LOGIN_WHAT, "CasesC06_login.idx"),
+                       ("c06_history_violating", _hist_key, GATE_WHAT + " - on a daemon with the history named in the case", "CasesC06_hist.idx"),
+                       ("c06_role_violating", _role_key, ROLE_WHAT, "CasesC06_role.idx")],
         timeout=1500,
         # the probes restore the profile tables thousands of times: keep the scratch database off the disk
         env=({"TMPDIR": "/dev/shm"} if os.path.isdir("/dev/shm") and os.access("/dev/shm", os.W_OK) else None))
